@@ -216,7 +216,7 @@ class ParameterConfigConverter:
       feasible_values = proto.categorical_value_spec.values
 
     default_value = None
-    if getattr(proto, oneof_name).default_value.value:
+    if getattr(proto, oneof_name).HasField('default_value'):
       default_value = getattr(proto, oneof_name).default_value.value
 
     if proto.conditional_parameter_specs:
